@@ -295,7 +295,7 @@ func (r *Real) Exec(o model.Op) (panicked bool, ret any, pmsg any) {
 	}
 	// list receiver
 	switch o.Op {
-	case "Add", "Insert", "Replace", "Delete", "Pop", "Clear", "Reverse", "Sort", "SubList", "Concat",
+	case "Add", "Insert", "Replace", "Delete", "Pop", "Clear", "Reverse", "Sort", "SortAny", "SubList", "Concat",
 		"Clone", "Slice", "NativeSlice", "FilterAll", "MapId":
 		l := r.list(o.R)
 		switch o.Op {
@@ -313,7 +313,7 @@ func (r *Real) Exec(o model.Op) (panicked bool, ret any, pmsg any) {
 			return false, l.Clear(), nil
 		case "Reverse":
 			return false, l.Reverse(), nil
-		case "Sort":
+		case "Sort", "SortAny":
 			return false, l.Sort(), nil
 		case "SubList":
 			return false, r.wrapL(l.SubList(o.I, o.J)), nil
